@@ -1246,6 +1246,9 @@ func c20IndentSweep(c *Ctx) {
 			k := batch[i]
 			c.Case("indent|"+k.line(), !isBlank(k.prefix) || !isBlank(k.indent))
 			c.Hit("v1.Indent/" + f[0])
+			if strings.HasPrefix(f[0], "diff-") {
+				c.Violate("v1.Indent-differs-from-encoding/json", k.op(), []byte(k.line()), map[string]any{"src": string(k.src), "prefix": k.prefix, "indent": k.indent, "what": f[0]})
+			}
 			if f[0] == "panic" {
 				c.Violate("panic", k.op(), []byte(k.line()), map[string]any{"src": string(k.src), "prefix": k.prefix, "indent": k.indent, "panic": strings.Join(f[1:], " ")})
 			}
